@@ -16,6 +16,16 @@ CLAIMED = {
            "by that sweep on the real code, not by a theorem yet - labelled partial."),
   "note": DIFF_NOTE,
  },
+ "C14": {
+  "technique": "Lean 4 proof per comparator (mirror lemmas, counterexample theorems) + both-orders correspondence with diff.Compare",
+  "text": ("Proof, partial: 17 theorems - the direction map `mirror` is an involution on normalised codes; DiffsTo, CompareIntValues/CompareFloatValues "
+           "(all bounds, lengths, item counts), CheckToFromRequired, the type hierarchy, CompareEnums and the numeric and string constraint groups of "
+           "CompareProps are each proved to mirror their labels when the arguments are swapped, for all inputs; `desc_changed_is_deleted_both_ways` "
+           "and `enum_introduced_is_silent` prove the statement false at two points (known findings). The composition into a whole-report law is not a "
+           "theorem: it is decided on the real analyser by running both argument orders on every generated pair (multiset of (url, method, response, "
+           "field path, mirrored code)) while the compiled model must agree with both reports."),
+  "note": DIFF_NOTE,
+ },
  "C15": {
   "technique": "Lean 4 proof (string-table round trips by decide over regenerated tables, JSON round trip, Matches/FilterIgnores laws, exit-status theorems) + correspondence with DiffCommand.Execute",
   "text": ("Proof: 22 theorems over the report model and the REGENERATED code/compatibility string tables - every code and compatibility name "
